@@ -43,7 +43,7 @@ ASSUMPTIONS = [
     "sampled, not exhaustive",
 ]
 PROBES = ["api_xr_rechunk_for_blockwise", "api_xr_rechunk_for_cohorts", "api_groupby_reduce", "api_groupby_scan", "api_xarray_reduce", "api_rechunk_for_blockwise", "api_rechunk_for_cohorts",
-          "unknown_labels_mapping_checked", "by_dask", "poisoned_chunks_later_evaluated"]
+          "unknown_labels_mapping_checked", "unknown_labels_sort_false", "by_dask", "poisoned_chunks_later_evaluated"]
 
 _COUNTER = {"poison": 0, "trap": 0}
 
@@ -75,6 +75,7 @@ def gen(tape: Tape, tier: str) -> dict:
             by_dask_p=0.5,
             by_dask_any_method=True,
             expected_modes=("none", "none", "exact", "superset"),
+            sort_choices=(True, True, False),
             max_ndim=2,
         )
         if r < 4 and len(case["by"][0]["shape"]) == 1:
@@ -227,6 +228,7 @@ def run(case, tape: Tape, ctx):
                 if not ok:
                     raise Violation("value", f"label {k}: compute-time value {a.tolist()} != eager {b.tolist()}", api=api)
             ctx.probe("unknown_labels_mapping_checked")
+            ctx.probe("unknown_labels_sort_false", kw.get("sort") is False)
 
 
 shrink = shrink_reduce
